@@ -1,6 +1,7 @@
 import TantivyModel.Proofs.Columnar.Mapping
 import TantivyModel.Proofs.Columnar.LinearColumn
 import TantivyModel.Proofs.Columnar.RangeU32
+import TantivyModel.Proofs.Columnar.RangeLookupMain
 import TantivyModel.Proofs.Columnar.CompactGaps
 import TantivyModel.Proofs.Columnar.StackMissing
 import TantivyModel.Proofs.Columnar.Writer
@@ -361,6 +362,23 @@ theorem C08_range_lookup (col : Column (BitVec 64)) (lo hi : BitVec 64) :
     have h2 := f64_to_u64_toNat hi
     have h3 := f64_to_u64_toNat v
     congr 1 <;> (apply decide_eq_decide.mpr; omega)
+
+/-- `Column::get_docids_for_value_range` through the column index, for every cardinality that fits the
+rows: the document range is turned into a row range (`docid_range_to_rowids`: identity / rank /
+start offsets of the ranks), the matching rows are collected, and `select_batch_in_place` maps them
+back (Optional: `select`; Multivalued: the cursor loop over the start offsets that writes each
+document once, then `select`). The result is exactly the documents of `s..e` that hold a value in
+the range, ascending, each once. -/
+theorem C08_column_range_lookup {V : Type} (key : V → Nat) (card : Card) (rows : Column V) (hfit : card.fits rows)
+    (lo hi s e : Nat) (hse : s ≤ e) (he : e ≤ rows.length) :
+    docidsForValueRange key (encodeAs card rows).1 (encodeAs card rows).2 lo hi s e
+      = (List.range' s (e - s)).filter (fun d => (rows.getD d []).any (fun v => decide (lo ≤ key v) && decide (key v ≤ hi))) :=
+  column_range_lookup key card rows hfit lo hi s e hse he
+
+example : docidsForValueRange id (encodeAs .multivalued [[5, 9], [], [1], [7, 8, 7]]).1
+    (encodeAs .multivalued [[5, 9], [], [1], [7, 8, 7]]).2 7 9 0 4 = [0, 3] := by decide
+example : docidsForValueRange id (encodeAs .optional [[5], [], [1], [7]]).1
+    (encodeAs .optional [[5], [], [1], [7]]).2 2 7 1 4 = [3] := by decide
 
 /-- the bitpacked reader transforms a query range to the stored (normalised) values. With the
 hypothesis `hHi : s.min ≤ hi` the transformation is exact; without it (`hi < min`) both bounds
